@@ -207,6 +207,12 @@ func (sc *Scheduler) Schedule(ctx context.Context, g *ExecutionGraph, done chan 
 						done <- node
 						return
 					}
+					if execErr != nil {
+						// Without a done channel the worker must stop here as well:
+						// a retried node may already have been relaunched, and the
+						// code below would mark that new attempt as finished.
+						return
+					}
 					break ExecRepeat
 				}
 				// finish the node
